@@ -136,6 +136,8 @@ def run(ctx):
             offs = [o for o in offs if (o + ctx.seed) % 3 == 0 or o <= -(blen - 3) or abs(o) <= 2 or o >= keep - 3 or abs(o - (keep - blen)) <= 2]
         for o in offs:
             scmds.append("ovstate f=%s kind=%s off=%d klen=%d len=%d\n" % (d["f"], d["kind"], o, d["sweep"]["klen"], d["sweep"]["len"]))
+            if d["kind"] == "start":        # the same placement on a USED state (re-Start after a first key and a processed message)
+                scmds.append("ovstate f=%s kind=%s off=%d klen=%d len=%d used=1\n" % (d["f"], d["kind"], o, d["sweep"]["klen"], d["sweep"]["len"]))
     sout = ctx.path("ovstate.ndjson")
     rc, _, err = vlib.run_harness(drv, ["ovstate"], stdin="".join(scmds).encode(), out_path=sout, env={"VERIF_SEED": ctx.seed}, timeout=900)
     srows = [json.loads(l) for l in open(sout) if l.strip().endswith("}")]
@@ -148,7 +150,7 @@ def run(ctx):
         ctx.note_inconclusive("Trace_Belt evaluated %d of %d state-overlap lines (rc=%s)" % (ns, len(srows), rs.rc))
     for i in bads:
         x = srows[i - 1]
-        ctx.violation("state:%s:%s:%s" % (x["f"], x["kind"], x["pos"] if x["pos"] != "sweep" else "off%d" % x.get("off", 0)),
+        ctx.violation("state:%s:%s%s:%s" % (x["f"], x["kind"], ":used" if x.get("used") else "", x["pos"] if x["pos"] != "sweep" else "off%d" % x.get("off", 0)),
                       "%s with the %s %s the state (%s) differs from the disjoint-buffer result"
                       % (x["f"], "key inside / straddling" if x["kind"] == "start" else "tag buffer inside / straddling", "of *Start" if x["kind"] == "start" else "of StepG", "%s, offset %s" % (x["pos"], x.get("off", "-"))),
                       {"command": scmds[i - 1].strip(), "line": x})
